@@ -132,6 +132,12 @@ func (c *Ctx) globalInit(rel, name string) (*ana.Term, int, *ssa.Global) {
 	}
 	g, ok := pk.Members[name].(*ssa.Global)
 	if !ok {
+		full := ana.Module + "/" + rel + "."
+		if nn, has := ana.GlobalRenames[full+name]; has {
+			g, ok = pk.Members[strings.TrimPrefix(nn, full)].(*ssa.Global)
+		}
+	}
+	if !ok {
 		return nil, 0, nil
 	}
 	var init *ana.Term
@@ -950,8 +956,8 @@ func (c *Ctx) writesOutsideInit(rel, name string) (int, *ssa.Global) {
 	if pk == nil {
 		return -1, nil
 	}
-	g, ok := pk.Members[name].(*ssa.Global)
-	if !ok {
+	g := c.gvar(rel, name)
+	if g == nil {
 		return -1, nil
 	}
 	n := 0
@@ -1029,4 +1035,93 @@ func deepCallTerms(c *Ctx, b *ana.Builder) []*ana.Term {
 	}
 	rec(b, 0)
 	return out
+}
+
+// ---- unexported package-level variables the rules anchor on
+//
+// They are looked up by name; after a rename they are re-identified as the only
+// unexported variable of their package with the recorded type (and, where the
+// type is shared, the recorded shape of the initialiser). The pattern language
+// is told about the new name (ana.GlobalRenames), so rule texts keep the pinned
+// name. A missing anchor stays an unresolved anchor.
+type gspec struct{ rel, name, typ, init string }
+
+var anchoredGlobals = []gspec{
+	{"pkg/bech32", "charset", "*" + ana.Module + "/pkg/bech32.encoding", ""},
+	{"pkg/bech32", "gen", "[]int", ""},
+	{"pkg/bip39", "wordList", ana.Module + "/pkg/bip39/wordlist.List", ""},
+	{"pkg/bech32/address", "hrpStrings", "[4]string", ""},
+	{"pkg/vrf", "nonCanonicalSignBytes", "[2][]byte", ""},
+	{"pkg/vrf", "identityPoint", "*filippo.io/edwards25519.Point", "call<filippo.io/edwards25519.NewIdentityPoint>"},
+	{"pkg/ed25519", "identity", "*filippo.io/edwards25519.Point", "call<filippo.io/edwards25519.NewIdentityPoint>"},
+	{"pkg/pow/v2", "maxHash", "*math/big.Int", "repocall"},
+	{"pkg/bip39", "wordLists", "map[string]func() " + ana.Module + "/pkg/bip39/wordlist.List", ""},
+}
+
+// resolveGlobals fills ana.GlobalRenames for the loaded program.
+func resolveGlobals(c *Ctx) {
+	ana.GlobalRenames = map[string]string{}
+	for _, gs := range anchoredGlobals {
+		pk := c.P.Pkg(gs.rel)
+		if pk == nil {
+			continue
+		}
+		if _, ok := pk.Members[gs.name].(*ssa.Global); ok {
+			continue
+		}
+		var cands []*ssa.Global
+		for _, m := range pk.Members {
+			g, ok := m.(*ssa.Global)
+			if !ok || token.IsExported(g.Name()) || strings.HasPrefix(g.Name(), "init$") {
+				continue
+			}
+			if types.TypeString(g.Type().(*types.Pointer).Elem(), nil) != gs.typ {
+				continue
+			}
+			if gs.init != "" {
+				init, _, _ := c.globalInit(gs.rel, g.Name())
+				if init == nil {
+					continue
+				}
+				if gs.init == "repocall" { // initialised by a call of a repository function
+					if h := calleeOf(init); init.Op != "call" || h == nil || !ana.InRepo(h) {
+						continue
+					}
+				} else if !matches(gs.init, init) {
+					continue
+				}
+			}
+			cands = append(cands, g)
+		}
+		if len(cands) == 1 {
+			full := ana.Module + "/" + gs.rel + "."
+			ana.GlobalRenames[full+gs.name] = full + cands[0].Name()
+			c.R.Assume("package variable " + gs.rel + "." + gs.name + " not found by name; re-identified by its type as " + cands[0].Name())
+		}
+	}
+}
+
+// gvar looks a package-level variable up by its pinned name or its resolved new name.
+func (c *Ctx) gvar(rel, name string) *ssa.Global {
+	pk := c.P.Pkg(rel)
+	if pk == nil {
+		return nil
+	}
+	if g, ok := pk.Members[name].(*ssa.Global); ok {
+		return g
+	}
+	full := ana.Module + "/" + rel + "."
+	if nn, ok := ana.GlobalRenames[full+name]; ok {
+		g, _ := pk.Members[strings.TrimPrefix(nn, full)].(*ssa.Global)
+		return g
+	}
+	return nil
+}
+
+// ResolveAnchors prepares the name-independent anchors for a freshly loaded program.
+func ResolveAnchors(c *Ctx) {
+	ana.GlobalRenames = map[string]string{}
+	ana.ResetPatterns()
+	resolveGlobals(c)
+	ana.ResetPatterns()
 }
